@@ -77,8 +77,8 @@ static MockFailureReporterForInCOnlyCode failureReporterForC;
 class MockCFunctionComparatorNode : public MockNamedValueComparator
 {
 public:
-    MockCFunctionComparatorNode(MockCFunctionComparatorNode* next, MockTypeEqualFunction_c equal, MockTypeValueToStringFunction_c toString)
-        : next_(next), equal_(equal), toString_(toString) {}
+    MockCFunctionComparatorNode(MockCFunctionComparatorNode* next, MockSupport* owner, MockTypeEqualFunction_c equal, MockTypeValueToStringFunction_c toString)
+        : next_(next), owner_(owner), equal_(equal), toString_(toString) {}
     virtual ~MockCFunctionComparatorNode() CPPUTEST_DESTRUCTOR_OVERRIDE {}
 
     virtual bool isEqual(const void* object1, const void* object2) CPPUTEST_OVERRIDE
@@ -91,6 +91,7 @@ public:
     }
 
     MockCFunctionComparatorNode* next_;
+    MockSupport* owner_;
     MockTypeEqualFunction_c equal_;
     MockTypeValueToStringFunction_c toString_;
 };
@@ -100,8 +101,8 @@ static MockCFunctionComparatorNode* comparatorList_ = NULLPTR;
 class MockCFunctionCopierNode : public MockNamedValueCopier
 {
 public:
-    MockCFunctionCopierNode(MockCFunctionCopierNode* next, MockTypeCopyFunction_c copier)
-        : next_(next), copier_(copier) {}
+    MockCFunctionCopierNode(MockCFunctionCopierNode* next, MockSupport* owner, MockTypeCopyFunction_c copier)
+        : next_(next), owner_(owner), copier_(copier) {}
     virtual ~MockCFunctionCopierNode() CPPUTEST_DESTRUCTOR_OVERRIDE {}
 
     virtual void copy(void* dst, const void* src) CPPUTEST_OVERRIDE
@@ -110,10 +111,27 @@ public:
     }
 
     MockCFunctionCopierNode* next_;
+    MockSupport* owner_;
     MockTypeCopyFunction_c copier_;
 };
 
 static MockCFunctionCopierNode* copierList_ = NULLPTR;
+
+/* deletes the adaptors installed through one scope (all of them when owner is NULL) */
+template <class Node>
+static void deleteNodesInstalledThrough_c(Node*& list, const MockSupport* owner)
+{
+    Node** link = &list;
+    while (*link) {
+        Node* node = *link;
+        if (owner == NULLPTR || node->owner_ == owner) {
+            *link = node->next_;
+            delete node;
+        }
+        else
+            link = &node->next_;
+    }
+}
 
 extern "C" {
 
@@ -219,29 +237,28 @@ void (*returnFunctionPointerValueOrDefault_c(void(*defaultValue)()))();
 
 static void installComparator_c (const char* typeName, MockTypeEqualFunction_c isEqual, MockTypeValueToStringFunction_c valueToString)
 {
-    comparatorList_ = new MockCFunctionComparatorNode(comparatorList_, isEqual, valueToString);
+    comparatorList_ = new MockCFunctionComparatorNode(comparatorList_, currentMockSupport, isEqual, valueToString);
     currentMockSupport->installComparator(typeName, *comparatorList_);
 }
 
 static void installCopier_c (const char* typeName, MockTypeCopyFunction_c copier)
 {
-    copierList_ = new MockCFunctionCopierNode(copierList_, copier);
+    copierList_ = new MockCFunctionCopierNode(copierList_, currentMockSupport, copier);
     currentMockSupport->installCopier(typeName, *copierList_);
 }
 
+/* Removing from the global scope empties every scope, so every adaptor can go.  Removing from a
+ * named scope empties that scope only: the adaptors installed through other scopes are still in
+ * use there and must stay alive.
+ */
 static void removeAllComparatorsAndCopiers_c()
 {
-    while (comparatorList_) {
-        MockCFunctionComparatorNode *next = comparatorList_->next_;
-        delete comparatorList_;
-        comparatorList_ = next;
-    }
-    while (copierList_) {
-        MockCFunctionCopierNode *next = copierList_->next_;
-        delete copierList_;
-        copierList_ = next;
-    }
-    currentMockSupport->removeAllComparatorsAndCopiers();
+    MockSupport* scope = currentMockSupport;
+    const bool isGlobalScope = (scope == &mock("", &failureReporterForC));
+
+    scope->removeAllComparatorsAndCopiers();
+    deleteNodesInstalledThrough_c(comparatorList_, isGlobalScope ? NULLPTR : scope);
+    deleteNodesInstalledThrough_c(copierList_, isGlobalScope ? NULLPTR : scope);
 }
 
 static MockExpectedCall_c gExpectedCall = {
